@@ -154,14 +154,19 @@ func c01Run(c *core.Ctx) {
 					c.Report(key("copy"), "shared-instance", fmt.Sprintf("by-name lookup of %s is not the registered object", scen.Name(i, p.N)), cc)
 					return
 				}
-				again, _ := o.App.GetComponentByName(scen.Name(i, p.N))
+				var again any
+				scen.Guard(func() { again, _ = o.App.GetComponentByName(scen.Name(i, p.N)) })
 				if !sameObject(again, o.Fin[i]) {
 					c.Report(key("relookup"), "shared-instance", fmt.Sprintf("two by-name lookups of %s returned different objects", scen.Name(i, p.N)), cc)
 					return
 				}
 			}
 			// by-type lookup returns the same objects
-			all, err := o.App.GetComponents(container.InterfaceType(ifaceType))
+			var all []any
+			var err error
+			if ab, pn := scen.Guard(func() { all, err = o.App.GetComponents(container.InterfaceType(ifaceType)) }); ab != "" || pn != "" {
+				err = fmt.Errorf("did not return normally: %s%s", ab, pn)
+			}
 			if err != nil {
 				c.Report(key("bytype"), "lookup-failed", "by-type lookup failed after a successful start: "+err.Error(), cc)
 				return
